@@ -192,6 +192,87 @@ def run(ctx):
     cli = prog.crate("warcraft_rs", "bin")
     R_main = ctx.rule("C20.main-returns-subcommand-result", "main's dispatch hands each sub-command's Result to the runtime unchanged (no ok()/let _/log-and-continue)", floor=8)
     R_site = ctx.rule("C20.no-swallowed-error", "every Err-handling site propagates, feeds an accumulator that guards a failing exit, falls back through a propagating call, or is an enumerated display-only site", floor=20)
+    # an item of the user's work list that is passed over must leave a trace the exit status depends on: a `continue` inside a loop over
+    # the inputs either sits in a branch that counts the item as failed / skipped, or is guarded by an option the user gave
+    R_skip = ctx.rule("C20.skipped-work-items-are-counted", "in every command loop over user-supplied items, each `continue` is in a branch that increments a failure / skip counter (or pushes to an error list), or whose condition reads a user option", floor=2)
+    for f in cli.fn_list:
+        if not f.hir or "::tests::" in f.path or "commands::" not in f.path:
+            continue
+        pn_ = {b for p_ in f.hir["params"] for b in hirq.pat_binds(p_)}
+        lets_ = {}
+        for l_ in hirq.find(f.hir["body"], "let"):
+            if l_["pat"].get("k") == "bind" and l_.get("init") is not None:
+                lets_.setdefault(l_["pat"]["name"], l_["init"])
+        for lp in hirq.find(f.hir["body"], "for"):
+            # a fixed list written in the source (`for s in ["(listfile)", ..]`) is not user input
+            roots_ = [x_["res"]["local"] for x_ in hirq.walk(lp["iter"]) if x_.get("k") == "path" and "local" in (x_.get("res") or {})]
+            def fixed_(e_):
+                return not any(y_.get("k") == "path" and "local" in (y_.get("res") or {}) for y_ in hirq.walk(e_)) and any(y_.get("k") == "lit" for y_ in hirq.walk(e_)) and not any(y_.get("k") == "mcall" for y_ in hirq.walk(e_))
+            if roots_ and all(r_ in lets_ and fixed_(lets_[r_]) for r_ in roots_):
+                continue
+            branches = []
+            for n_ in hirq.walk(lp["body"]):
+                if n_.get("k") == "if":
+                    for arm_, cond_ in ((n_["then"], n_["c"]), (n_.get("else"), n_["c"])):
+                        if arm_ is not None and any(x_.get("k") == "continue" for x_ in hirq.walk(arm_)) and not any(y_.get("k") in ("if", "match") and any(x_.get("k") == "continue" for x_ in hirq.walk(y_)) for y_ in hirq.walk(arm_) if y_ is not arm_):
+                            branches.append((arm_, cond_, n_.get("ln")))
+                if n_.get("k") == "match":
+                    for a_ in n_["arms"]:
+                        if any(x_.get("k") == "continue" for x_ in hirq.walk(a_["body"])) and not any(y_.get("k") in ("if", "match") and any(x_.get("k") == "continue" for x_ in hirq.walk(y_)) for y_ in hirq.walk(a_["body"]) if y_ is not a_["body"]):
+                            branches.append((a_["body"], None, n_.get("ln")))
+            for arm_, cond_, ln_ in branches:
+                ctx.saw_fn(f)
+                counted = any(x_.get("k") == "assignop" and re.search(r"err|fail|skip|miss|invalid|bad", hirq.render(x_["l"]), re.I) for x_ in hirq.walk(arm_)) or \
+                          any(x_.get("k") == "mcall" and x_["m"] in ("push", "insert") and re.search(r"err|fail|skip|miss|invalid|bad", hirq.render(x_["recv"]), re.I) for x_ in hirq.walk(arm_))
+                by_option = cond_ is not None and any(x_.get("k") == "path" and (x_.get("res") or {}).get("local") in pn_ and re.search(r"skip|filter|only|include|exclude|pattern|quiet|verbose|force|overwrite", x_["res"]["local"]) for x_ in hirq.walk(cond_)) or \
+                            (cond_ is not None and re.search(r"\bargs\.|options\.|opts\.|config\.", hirq.render(cond_)))
+                inst = {"fn": f.path.split("commands::")[-1], "line": ln_}
+                if counted or by_option:
+                    ctx.ok(R_skip, dict(inst, by="counter" if counted else "user option"))
+                else:
+                    ctx.bad(R_skip, "%s|uncounted-skip" % f.path.split("commands::")[-1], "%s:%d" % (f.file, ln_ or 0), "an item of the work list is passed over (`continue`) in a branch that neither counts it nor depends on a user option%s" % ((": `if %s`" % hirq.render(cond_)[:60]) if cond_ is not None else ""),
+                            "the command reports success and exits 0 although it did not do what was asked for that item (a mistyped or missing input is silently left out of the result)")
+
+    # a value by which the user names *one* thing (a mip level, an index, an entry, an id) reaches the library as given: clamping it into
+    # range turns "no such level" into a successful conversion of something else
+    R_sel = ctx.rule("C20.selector-arguments-are-not-clamped", "no min / max / clamp / saturating_* is applied in a command to an argument that selects an item (name matches level / index / entry / id / offset / tile / chunk); display limits and tuning knobs are not selectors", floor=3)
+    SEL = re.compile(r"(^|_)(level|index|idx|entry|id|offset|tile|chunk|set|group|frame|lod)($|_)")
+    for f in cli.fn_list:
+        if not f.hir or "::tests::" in f.path or "commands::" not in f.path:
+            continue
+        pn_ = {b for p_ in f.hir["params"] for b in hirq.pat_binds(p_)}
+        seen_sel = set()
+        for x_ in hirq.walk(f.hir["body"]):
+            # uses of selector-named arguments: `args.<sel>` fields and selector-named parameters
+            nm_ = None
+            if x_.get("k") == "field" and re.search(r"^(args|opts|options|cmd)$", hirq.render(x_["e"]).strip("&*()")) and SEL.search(x_["name"]):
+                nm_ = "args." + x_["name"]
+            elif x_.get("k") == "path" and (x_.get("res") or {}).get("local") in pn_ and SEL.search(x_["res"]["local"]):
+                nm_ = x_["res"]["local"]
+            if nm_:
+                seen_sel.add(nm_)
+        clamped = {}
+        for c_ in hirq.walk(f.hir["body"]):
+            if c_.get("k") == "mcall" and c_["m"] in ("min", "max", "clamp", "saturating_sub", "saturating_add") and c_["m"] != "saturating_sub":
+                r_ = hirq.strip(c_["recv"])
+                while r_.get("k") in ("cast", "ref", "un"):
+                    r_ = hirq.strip(r_["e"])
+                nm_ = None
+                if r_.get("k") == "field" and re.search(r"^(args|opts|options|cmd)$", hirq.render(r_["e"]).strip("&*()")) and SEL.search(r_["name"]):
+                    nm_ = "args." + r_["name"]
+                elif r_.get("k") == "path" and (r_.get("res") or {}).get("local") in pn_ and SEL.search(r_["res"]["local"]):
+                    nm_ = r_["res"]["local"]
+                if nm_:
+                    clamped[nm_] = c_
+        for nm_ in sorted(seen_sel):
+            ctx.saw_fn(f)
+            if nm_ in clamped:
+                c_ = clamped[nm_]
+                ctx.bad(R_sel, "%s|%s|clamped" % (f.path.split("commands::")[-1], nm_), "%s:%d" % (f.file, c_.get("ln") or 0), "the selector `%s` is passed through `%s`" % (nm_, hirq.render(c_)[:70]),
+                        "a request for an item that does not exist is answered with another item and reported as success (exit 0) instead of the library's error")
+            else:
+                ctx.ok(R_sel, {"fn": f.path.split("commands::")[-1], "selector": nm_})
+
     R_acc = ctx.rule("C20.accumulator-guards-failing-exit", "a counter/list filled in a non-diverging error arm is tested by a conditional that leads to a failing exit", floor=2)
     R_val = ctx.rule("C20.validate-commands-fail-on-problems", "every validate sub-command has a failing exit that depends on the validation outcome (sibling agreement)", floor=8)
 
